@@ -151,6 +151,35 @@ def h_order_types(ctx, fname, nmax, params=None):
             ctx.eq(got, ref, '%s order %s(%d) == order %d' % (fname, t.__name__, n, n))
 
 
+INT_POINTS = {'any': [2, -3], 'pos': [2, 3], 'gtm1': [1, 2], 'nonzero': [2, -3], 'abs1': [0, 0], 'gt1': [2, 3]}
+
+
+def h_arg_kinds(ctx, fname, nmax, params=None):
+    """the argument given as an integer-typed array (int64 / int32 / int8; magnitudes whose square
+    leaves the integer range), a python int, a list or a tuple gives the same value as the float
+    array holding the same numbers (concrete numbers: decided on the float build)"""
+    algopy = symx.load_algopy()
+    params = params or {}
+    if ctx.mode == 'sym':
+        ctx.fact(True, 'concrete arguments: decided on the float build')
+        ctx.eq(S.const(0), S.const(0), '%s: argument kinds' % fname)
+        return
+    pts = INT_POINTS[DOMAINS[fname]]
+    cases = [('int64 array', np.array(pts, dtype=np.int64)), ('int32 array', np.array(pts, dtype=np.int32)), ('int8 array', np.array(pts, dtype=np.int8)),
+             ('python int', int(pts[0])), ('list of floats', [float(v) for v in pts]), ('tuple of ints', tuple(pts))]
+    if DOMAINS[fname] in ('any', 'gt1', 'pos', 'nonzero'):
+        cases += [('int32 array, large', np.array([100000, 46341], dtype=np.int32)), ('int8 array, 20', np.array([20, 12], dtype=np.int8))]
+    for n in range(1, nmax + 1):
+        for label, arg in cases:
+            ref = call(algopy, fname, np.asarray(arg, dtype=float), n, params)
+            try:
+                got = call(algopy, fname, arg, n, params)
+            except Exception as e:
+                ctx.fact(False, '%s(%s, n=%d) raised %s: %s' % (fname, label, n, type(e).__name__, str(e)[:70]))
+                continue
+            ctx.eq(np.asarray(got, dtype=float), np.asarray(ref, dtype=float), '%s(%s, n=%d) == value on the float array' % (fname, label, n))
+
+
 def h_piecewise(ctx, fname, nmax):
     """piecewise constant / linear functions: derivative orders >= 1 on each path"""
     algopy = symx.load_algopy()
@@ -218,6 +247,11 @@ def units(tier, seed):
     add('hyperu(3/2,1/2)/orders requested in mixed sequence/n<=4', 'h_chain', fname='hyperu', nmax=4, params={'a': '3/2', 'b': '1/2'}, order='mixed')
     for fname in ('erf', 'erfi', 'log', 'reciprocal', 'arctan', 'arcsinh', 'arctanh', 'sin', 'sqrt', 'exp2'):
         add('%s/order given as a NumPy integer/n<=3' % fname, 'h_order_types', fname=fname, nmax=3)
+    for fname in DOMAINS:
+        if fname in ('polygamma', 'hyperu'):
+            continue
+        out.append(Unit('C16/%s/argument kinds (integer-typed arrays, python int, list, tuple)/n<=2' % fname, 'symx.props.c16', 'h_arg_kinds',
+                        {'fname': fname, 'nmax': 2}, dict(opts, float_rel=1e-9)))
     add('hyperu(3/2,1/2)/order given as a NumPy integer/n<=2', 'h_order_types', fname='hyperu', nmax=2, params={'a': '3/2', 'b': '1/2'})
     for m in ((0, 1, 2) if tier == 'quick' else (0, 1, 2, 3, 5)):
         add('polygamma(m=%d)/n<=%d' % (m, nmax), 'h_chain', fname='polygamma', nmax=nmax, params={'m': m})
